@@ -15,7 +15,10 @@ LEVEL = 'exploration'
 SHARDS = {'quick': 4, 'thorough': 16}
 PID = 'C20'
 CONTENTS = [(T.NAT, [0, 1, 7]), (T.STRING, ['', 'a', 'gold']), (T.pair(T.NAT, T.STRING), [(1, 'a'), (1, 'b'), (2, 'a')]), (T.UNIT, [()]),
-            (T.option(T.INT), [None, ('Some', -1)]), (T.BYTES, [b'', b'\x00'])]
+            (T.option(T.INT), [None, ('Some', -1)]), (T.BYTES, [b'', b'\x00']),
+            # contents that differ only in how they are nested (None / Some None, Left 0 / Right 0, 0 / "0"-like shapes)
+            (T.option(T.option(T.NAT)), [None, ('Some', None), ('Some', ('Some', 0))]), (T.or_(T.NAT, T.NAT), [('L', 0), ('R', 0)]),
+            (T.pair(T.option(T.option(T.UNIT)), T.BOOL), [(None, False), (('Some', None), False), (None, True)]), (T.BOOL, [False, True])]
 FAIL = lambda msg: [PUSH(T.STRING, msg), I('FAILWITH')]
 
 
@@ -168,6 +171,8 @@ class Gen:
             op = rng.choice(opts)
             if op == 'mint' or op == 'dip-mint':
                 ct, vals = rng.choice(CONTENTS)
+                if top and top[0] == 'ticket' and rng.random() < 0.5:
+                    ct, vals = next(c for c in CONTENTS if c[0] == top[1])   # same contents type as the ticket on top: joinable
                 chunk = [PUSH(T.NAT, rng.choice([0, 1, 2, 5, 10, 2 ** 64])), PUSH(ct, rng.choice(vals)), I('TICKET')]
                 chunk += [I('IF_NONE', FAIL('zero ticket'), [])] if rng.random() < 0.85 else []
                 code += [I('DIP', chunk)] if op == 'dip-mint' else chunk
@@ -244,8 +249,8 @@ def run(ctx):
     if not K.calibrated(ctx):
         return
     rng = ctx.rng
-    ctx.rule = ('ticket programs built incrementally with model feedback: TICKET with amounts {0,1,2,5,10,2^64} and contents of six '
-                'types, SPLIT_TICKET over (a,b) incl. zero parts / sums that do not match / exact splits, JOIN_TICKETS of equal and '
+    ctx.rule = ('ticket programs built incrementally with model feedback: TICKET with amounts {0,1,2,5,10,2^64} and contents of ten '
+                'types (incl. None / Some None, Left 0 / Right 0), every ordered pair of contents joined, SPLIT_TICKET over (a,b) incl. zero parts / sums that do not match / exact splits, JOIN_TICKETS of equal and '
                 'different contents, READ_TICKET, plumbing through pair/option/or/list/DIP/DIG/DUG, ITER over ticket lists; lock-step '
                 'vs the reference + conservation checker on every hook snapshot (no growth except by TICKET, no zero amount, no '
                 'object reachable twice); DUP of tickets must be refused; distinct by program; non-trivial = >= 3 primitives')
@@ -272,7 +277,26 @@ def run(ctx):
         conservation(ctx, out.mon, case)
         if len(ctx.samples) < 3 and out.kind == 'agree' and len(code) > 12:
             ctx.samples.append({'program': code, 'outcome': out.model.kind})
+    # every ordered pair of contents of every contents type: mint both, JOIN_TICKETS, lock-step
+    j = 0
+    for ct, vals in CONTENTS:
+        for a in vals:
+            for b in vals:
+                j += 1
+                if not ctx.mine(j):
+                    continue
+                mint = lambda v, n: [PUSH(T.NAT, n), PUSH(ct, v), I('TICKET'), I('IF_NONE', FAIL('zero ticket'), [])]
+                code = mint(a, 3) + mint(b, 4) + [I('PAIR'), I('JOIN_TICKETS')]
+                out = L.run_both(code, None, mode='both', keep_objects=True)
+                ctx.case(K.code_key(code, None), nontrivial=True)
+                ctx.count('join_sweep_programs')
+                if out.kind == 'violation':
+                    ctx.violation('C20|%s' % out.sig, out.detail, {'code': code})
+                elif out.kind == 'agree':
+                    ctx.count('agree')
+                    conservation(ctx, out.mon, {'code': code})
     dup_must_fail(ctx)
+    ctx.require('join_sweep_programs', 10)
     ctx.require('agree', 200)
     ctx.require('conservation_steps', 2000)
     ctx.require('dup_attempts', 3)
